@@ -37,14 +37,19 @@ func c02Serialize(errs []*actionlint.Error, err error) string {
 }
 
 // c02LibRepeat lints the input n times; returns the distinct serialised results.
-func c02LibRepeat(in *c02Input, root string, n int) (outs []string, tie bool) {
+func c02LibRepeat(in *c02Input, root string, n int, tools bool) (outs []string, tie bool) {
 	seen := map[string]bool{}
 	var paths []string
 	for _, p := range in.Lint {
 		paths = append(paths, filepath.Join(root, p))
 	}
 	for i := 0; i < n; i++ {
-		l, err := actionlint.NewLinter(discard{}, &actionlint.LinterOptions{WorkingDir: root})
+		opts := actionlint.LinterOptions{WorkingDir: root}
+		if tools {
+			opts.Shellcheck = filepath.Join(binDir(), "faketool")
+			opts.Pyflakes = filepath.Join(binDir(), "faketool")
+		}
+		l, err := actionlint.NewLinter(discard{}, &opts)
 		var s string
 		if err != nil {
 			s = "NEWLINTER: " + err.Error()
@@ -343,6 +348,18 @@ func c02TieInputs(r *Rand) []*c02Input {
 	// matrix duplicates and exclude mismatches
 	add("matrix-duplicates-excludes", wf("on: push\njobs:\n  j:\n    strategy:\n      matrix:\n        os: [a, b, a, b, a]\n        v: [1, 1, {x: 1}, {x: 1}]\n        exclude:\n          - os: zzz\n            v: 9\n            nokey: 1\n            nokey2: 2\n          - nokey3: 1\n    runs-on: ubuntu-latest\n    steps:\n      - run: echo\n"))
 
+	// JSON literal whose keys collide after case folding with values of different types: the merged
+	// type (and hence message texts) must not depend on map iteration order
+	vals := []string{"1", "true", "\\\"s\\\"", "null", "[1]", "{\\\"x\\\":1}"}
+	var jsteps strings.Builder
+	for t := 0; t < 4; t++ {
+		// three keys that collide after folding (Merge of three types is not associative), plus
+		// a larger collision set; the accesses reveal the merged type in diagnostics
+		pv := r.Perm(len(vals))
+		jl3 := fmt.Sprintf("{\\\"ab\\\":%s,\\\"Ab\\\":%s,\\\"AB\\\":%s,\\\"other\\\":1}", vals[pv[0]], vals[pv[1]], vals[pv[2]])
+		jsteps.WriteString("      - run: \"echo ${{ fromJSON('" + jl3 + "').ab.nope }} ${{ fromJSON('" + jl3 + "').AB[0] }} ${{ fromJSON('" + jl3 + "').zz }}\"\n")
+	}
+	add("fromjson-colliding-keys", wf(c02WfHead+c02Job("j", "      - run: \"echo ${{ fromJSON('{\\\"ab\\\":1,\\\"Ab\\\":true,\\\"AB\\\":\\\"s\\\"}').ab.nope }}\"\n"+jsteps.String())))
 	// several untrusted inputs in one expression; object filters
 	add("untrusted-several", wf(c02WfHead+c02Job("j", "      - run: echo ${{ github.event.issue.title || github.event.issue.body || github.head_ref || github.event.pull_request.title }}\n      - run: echo ${{ toJSON(github.event.*.body) }} ${{ github.event.commits.*.message }} ${{ github.event.pages.*.page_name }}\n")))
 	add("undefined-props-several", wf(c02WfHead+c02Job("j", "      - run: echo ${{ github.nope1 }} ${{ github.nope2 }}\n      - run: echo ${{ github.nope3 && runner.nope4 && job.nope5 }}\n      - run: echo ${{ unknown1() || unknown2(unknown3) }}\n")))
@@ -531,11 +548,15 @@ func c02MultiRepoProject(r *Rand) *c02Input {
 }
 
 func c02CheckLib(c *Case, in *c02Input, reps int, tag string) {
+	c02CheckLibOpts(c, in, reps, tag, false)
+}
+
+func c02CheckLibOpts(c *Case, in *c02Input, reps int, tag string, tools bool) {
 	root := mkScratch("c02")
 	defer os.RemoveAll(root)
 	os.MkdirAll(filepath.Join(root, ".git"), 0o755)
 	writeFiles(root, in.Files)
-	outs, tie := c02LibRepeat(in, root, reps)
+	outs, tie := c02LibRepeat(in, root, reps, tools)
 	c.Eval(reps)
 	c.Count("inputs", 1)
 	if tie {
@@ -621,6 +642,22 @@ func runC02(r *Run) {
 		ins := c02TieInputs(NewRand(c.Seed, "C02", "tie-param").Sub(c.Idx / len(probe)))
 		in := ins[c.Idx%len(probe)]
 		c02CheckLib(c, in, reps, "tie")
+	}})
+	// external tools: steps alternating sh / bash / python whose (fake) tool output names the shell
+	// it was started for; diagnostics must not depend on scheduling of the process pool
+	fams = append(fams, &Family{Name: "tools-mixed-shells", N: r.Q(8, 80), Par: 2, Do: func(c *Case) {
+		var b strings.Builder
+		b.WriteString("on: push\njobs:\n  j:\n    runs-on: ubuntu-latest\n    steps:\n")
+		n := c.R.Range(24, 72)
+		for i := 0; i < n; i++ {
+			sh := []string{"sh", "", "bash", "python", "sh -e {0}"}[c.R.Intn(5)]
+			fmt.Fprintf(&b, "      - run: echo step-%d FT:issues=%d,slow=%d\n", i, c.R.Range(1, 2), c.R.Intn(6))
+			if sh != "" {
+				b.WriteString("        shell: " + sh + "\n")
+			}
+		}
+		in := &c02Input{Files: map[string]string{".github/workflows/w.yml": b.String()}, Lint: []string{".github/workflows/w.yml"}, Site: "tools-mixed-shells"}
+		c02CheckLibOpts(c, in, r.Q(6, 20), "tools", true)
 	}})
 	// runner labels spread over flow lists, block lists and matrix values at varying positions
 	fams = append(fams, &Family{Name: "runner-label-soup", N: r.Q(300, 6000), Do: func(c *Case) {
